@@ -18,11 +18,17 @@ pub enum Fault {
     /// one main-trace matrix cell += 1 (hook H4)
     F1 { table: usize, row: usize, col: usize },
     /// slot value changed at its definition, everything downstream recomputed.
-    /// `unit` = basis element the +1 is applied to (0 = the base-field unit)
+    /// `unit` = basis element the +1 is applied to (0 = the base-field unit);
+    /// `unit >= BUS_ONLY`: bus-visible form, see `F3`
     F2 { slot: u32, unit: usize },
     /// private sibling limb of a Merkle-mode permutation changed, downstream recomputed
     F2Sibling { op_id: u32, limb: usize },
-    /// slot value +1 in every row scalar that mentions it, nothing recomputed
+    /// slot value +1 in every row scalar that mentions it, nothing recomputed.
+    ///
+    /// `unit >= BUS_ONLY` is the *bus-visible* form (unit = `unit - BUS_ONLY`): input ports of
+    /// an ALU row that name the same slot as the row's own `out` keep their honest value.
+    /// Such a port duplicates `out` inside the row; when the row creates the slot the
+    /// duplicate is off the bus, so only the row's own constraints tie it to the witness.
     F3 { slot: u32, unit: usize },
     /// one input port of one op reads value+1; the op's result is recomputed and propagated.
     ///
@@ -36,6 +42,9 @@ pub enum Fault {
     /// propagated: rows that inherit from it, slots fed by `out_ctl`, dependent ops.
     F4 { op: usize, port: Port, unit: usize },
 }
+
+/// marker added to the unit of an F3 fault for its bus-visible form
+pub const BUS_ONLY: usize = 1000;
 
 impl Fault {
     /// class F5: slot-less (inherited) input limb `limb` of permutation op `op` += basis unit
@@ -526,6 +535,14 @@ impl<B: Backend> Fixture<B> {
             for &u in units {
                 v.push(Fault::F3 { slot: s as u32, unit: u });
             }
+            if !self.out_duplicates(WitnessId(s as u32)).is_empty() {
+                // few sites: the lowest and the highest coefficient in every tier
+                let both: Vec<usize> = if B::D > 1 { vec![0, B::D - 1] } else { vec![0] };
+                for &u in &both {
+                    v.push(Fault::F2 { slot: s as u32, unit: BUS_ONLY + u });
+                    v.push(Fault::F3 { slot: s as u32, unit: BUS_ONLY + u });
+                }
+            }
         }
         // F4: every input port of every row-producing op
         for (oi, op) in self.circuit.ops.iter().enumerate() {
@@ -603,6 +620,26 @@ impl<B: Backend> Fixture<B> {
     }
 
     /// Row scalars that mention `slot` (ports the row's relation uses).
+    /// `(alu row, port)` of every ALU input port that names `slot` in a row whose `out` is
+    /// `slot` too (the port duplicates the row's output cell)
+    fn out_duplicates(&self, slot: WitnessId) -> Vec<(usize, usize)> {
+        let mut v = vec![];
+        let mut ai = 0usize;
+        for op in &self.circuit.ops {
+            if let Op::Alu { kind, a, b, c, out, .. } = op {
+                if *out == slot {
+                    for (port, s) in alu_used_ports(*kind, *a, *b, *c, *out) {
+                        if s == slot && port != 3 {
+                            v.push((ai, port));
+                        }
+                    }
+                }
+                ai += 1;
+            }
+        }
+        v
+    }
+
     fn locs_of_slot(&self, slot: WitnessId) -> Vec<(Loc, bool /*base-field scalar*/)> {
         let mut v = vec![];
         let (mut ci, mut pi, mut ai) = (0usize, 0usize, 0usize);
@@ -698,6 +735,25 @@ impl<B: Backend> Fixture<B> {
                     committed,
                 ))
             }
+            Fault::F2 { slot, unit: u } if *u >= BUS_ONLY => {
+                // bus-visible form: the new value everywhere downstream, but the in-row
+                // duplicates of `out` keep the honest value
+                let dev = Deviation {
+                    slots: vec![(WitnessId(*slot), Change::Add(unit::<B>(*u - BUS_ONLY)))],
+                    adapt_publics: true,
+                    ..Deviation::none()
+                };
+                let mut t = self.forge(&dev)?.traces;
+                let dups = self.out_duplicates(WitnessId(*slot));
+                if dups.is_empty() {
+                    return Err("slot has no in-row duplicate of an output cell".into());
+                }
+                for (row, port) in dups {
+                    let h = self.honest.0.alu_trace.values.get(row).ok_or("no honest ALU row")?[port];
+                    t.alu_trace.values.get_mut(row).ok_or("no forged ALU row")?[port] = h;
+                }
+                Ok((t.clone(), self.inputs.clone(), vec![], t))
+            }
             Fault::F2 { slot, unit: u } => {
                 let dev = Deviation {
                     slots: vec![(WitnessId(*slot), Change::Add(unit::<B>(*u)))],
@@ -728,7 +784,17 @@ impl<B: Backend> Fixture<B> {
                 if locs.is_empty() {
                     return Err("slot is mentioned by no row scalar".into());
                 }
+                let (u, skip) = if *u >= BUS_ONLY {
+                    (&(*u - BUS_ONLY), self.out_duplicates(WitnessId(*slot)))
+                } else {
+                    (u, vec![])
+                };
                 for (l, base_only) in locs {
+                    if let Loc::Alu { row, port, .. } = &l {
+                        if skip.contains(&(*row, *port)) {
+                            continue;
+                        }
+                    }
                     let l = match (l, base_only) {
                         (l, true) => {
                             if *u != 0 {
